@@ -21,6 +21,11 @@ type Lit struct {
 // [ (e|E) [sign] digits ], digits split around the point anywhere, leading and
 // trailing zeros, optional '_' separators in legal positions.
 func GenDecLiteral(t *rapid.T, label string, maxDigits int, seps bool) Lit {
+	return GenDecLiteralAt(t, label, maxDigits, seps, 0)
+}
+
+// GenDecLiteralAt is GenDecLiteral with the rounding patterns placed at precision p (0: at a drawn position).
+func GenDecLiteralAt(t *rapid.T, label string, maxDigits int, seps bool, p int) Lit {
 	neg := false
 	sign := rapid.SampledFrom([]string{"", "", "+", "-"}).Draw(t, label+".sign")
 	if sign == "-" {
@@ -30,7 +35,11 @@ func GenDecLiteral(t *rapid.T, label string, maxDigits int, seps bool) Lit {
 	if rapid.IntRange(0, 14).Draw(t, label+".zero") == 0 {
 		sig = ""
 	} else if rapid.Bool().Draw(t, label+".round") {
-		sig = GenRoundDigits(t, label+".rd", rapid.IntRange(1, 40).Draw(t, label+".rp"))
+		rp := p
+		if rp <= 0 {
+			rp = rapid.IntRange(1, 40).Draw(t, label+".rp")
+		}
+		sig = GenRoundDigits(t, label+".rd", rp)
 	} else {
 		sig = GenDigits(t, label+".dig", maxDigits)
 	}
